@@ -42,6 +42,7 @@ const (
 	FamSmall = iota
 	FamBlocks
 	FamWide
+	FamMid // 1..28 documents focused on one posting list (multi-chunk under fixed sizes), plus unique terms
 )
 
 // how a segment is held
@@ -132,6 +133,9 @@ func GenLeaf(t *rapid.T, ctx *Ctx, sc *Scenario, cfg CaseCfg, label string) (*Se
 	case FamWide:
 		p := GenWide(t)
 		b, desc = p.Batch(sc), p.String()
+	case FamMid:
+		b = genPostingBatch(t, sc)
+		desc = "posting-batch " + b.String()
 	default:
 		b = GenBatch(t, sc, cfg.MaxDocs)
 		desc = b.String()
